@@ -532,6 +532,106 @@ func runC04(c *Ctx) {
 	c.sites++
 	c.Check(fname(pth)+"#index-only-if-challenge-matches", pth.Pos(), okP, ifelse(okP, "index returned only under hmac.Equal(s, H2(transcript)), H1 over the message", "ProofToHash returns an index without the recomputed challenge matching the proof's, or not over the message"))
 
+	// ------------------------------------------------------------ B6
+	c.Rule("C04.B6", "GATE", "what the binomial search is given is a probability: every selection probability that reaches choose (in VrfSortition, VrfVerifySortition and VrfVerifyPriority, directly or through their shared helper) is bounded by 1 on every path — capped or compared with 1 — because committee size / total stake exceeds 1 as soon as the committee is larger than the online stake (a legal state with test-net minimum stakes), and the binomial CDF panics on it: every node dies at the same height, in its own sortition, on received votes and on header import")
+	c.Min(3)
+	for _, fn := range []*ssa.Function{vs, vvs, vvp} {
+		c.sites++
+		var pArg ssa.Value
+		for _, x := range withSmallHelpers(fn) {
+			for _, ci := range callInstrs(x) {
+				if o := calleeObj(ci); o != nil && (o.Name() == "choose" || o.Name() == "sortition") && pArg == nil {
+					a := callArgs(ci)
+					pArg = a[len(a)-1]
+				}
+			}
+		}
+		bounded := false
+		if pArg != nil {
+			// a cap: the value is a phi / select with the constant 1 on one edge under a comparison with 1, or the
+			// producing helper returns such a phi
+			var cands []ssa.Value
+			cands = append(cands, pArg)
+			if cc, ok := stripConvNoBind(pArg).(*ssa.Call); ok {
+				cands = append(cands, enterHelper(cc)...)
+			}
+			for _, cv := range cands {
+				backward(cv, func(v ssa.Value) bool {
+					phi, ok := v.(*ssa.Phi)
+					if !ok {
+						return !bounded
+					}
+					for _, e := range phi.Edges {
+						if k, isC := stripConv(e).(*ssa.Const); isC && k.Value != nil && k.Value.String() == "1" {
+							bounded = true
+						}
+					}
+					return !bounded
+				})
+			}
+			// or an explicit comparison with 1 dominating the call
+			for _, x := range withSmallHelpers(fn) {
+				for _, ci := range callInstrs(x) {
+					if o := calleeObj(ci); o != nil && (o.Name() == "choose" || o.Name() == "sortition") {
+						for _, a := range atomsOf(factsAtInstr(ci.(ssa.Instruction))) {
+							if a.Kind == "cmp" && a.Y != nil {
+								if k, isC := stripConv(a.Y).(*ssa.Const); isC && k.Value != nil && k.Value.String() == "1" {
+									bounded = true
+								}
+							}
+						}
+					}
+				}
+			}
+		}
+		c.Check(fname(fn)+"#probability-bounded-by-one", fn.Pos(), bounded, ifelse(bounded, "the probability handed to the binomial search is capped at / compared with 1", "threshold / totalStake reaches the binomial search unbounded: with a committee larger than the total online stake it exceeds 1 and distuv.Binomial panics (cephes: parameter out of bounds) in sortition, vote verification and header import alike"))
+	}
+
+	// ------------------------------------------------------------ B7
+	c.Rule("C04.B7", "EXIT", "a proposer credential needs at least one seat: VrfVerifyPriority answers true only on paths that established j > 0 for the recomputed seat count (as VrfVerifySortition does) — with j = 0 the claimed priority keccak(vrfHash) equals the recomputed 'maximum over no seats', so a validator that won nothing passes the proposer check and its block is accepted")
+	c.Min(1)
+	{
+		var ch ssa.CallInstruction
+		for _, ci := range callInstrs(vvp) {
+			if o := calleeObj(ci); o != nil && o.Name() == "choose" {
+				ch = ci
+			}
+		}
+		c.sites++
+		if ch == nil {
+			c.Undecided(fname(vvp)+"#accepts-only-with-a-seat", vvp.Pos(), "the choose call was not found")
+		} else {
+			okAll, nAcc := true, 0
+			for _, b := range vvp.Blocks {
+				r, ok := b.Instrs[len(b.Instrs)-1].(*ssa.Return)
+				if !ok || b == vvp.Recover {
+					continue
+				}
+				v0 := stripConv(r.Results[0])
+				if cv, isC := v0.(*ssa.Const); isC && cv.Value != nil && cv.Value.String() == "false" {
+					continue
+				}
+				nAcc++
+				positive := false
+				for _, a := range atomsOf(factsAt(b)) {
+					if a.Kind == "cmp" && stripConv(a.X) == ch.Value() {
+						op := a.Op
+						if !a.Truth {
+							op = negateCmp(op)
+						}
+						if n, isC := constInt(a.Y); isC && ((n == 0 && op == token.GTR) || (n == 1 && op == token.GEQ)) {
+							positive = true
+						}
+					}
+				}
+				if !positive {
+					okAll = false
+				}
+			}
+			c.Check(fname(vvp)+"#accepts-only-with-a-seat", vvp.Pos(), okAll && nAcc > 0, ifelse(okAll && nAcc > 0, "every accepting return established j > 0", "VrfVerifyPriority can answer true for j = 0: a validator without a proposer seat announces SubUsers = 0 and Priority = keccak(vrfHash), passes verifyPriority and the header check, and its block becomes chain head"))
+		}
+	}
+
 	// ------------------------------------------------------------ B5
 	c.Rule("C04.B5", "SHAPE", "the proposer priority is the largest hash over the winner's seats: computePriority runs its counter from a constant start to the seat count j in steps of one, every candidate is Keccak(VRF output ‖ seat number), and the running maximum is replaced exactly when the candidate compares greater and is what the function returns")
 	c.Min(3)
